@@ -2,6 +2,7 @@
 // real library built from /repo's working tree. Public entry points only (plus the exported
 // DISPATCH_VERIF wrappers), so that glue code is inside the comparison.
 #include <dispatch/dispatch.h>
+#include <dlfcn.h>
 #include <stdio.h>
 #include <string.h>
 #include <stdlib.h>
@@ -44,7 +45,8 @@ static void print_data_hex(dispatch_data_t d){ const void *p; size_t n; dispatch
 
 static char *base; // &_dispatch_queue_attrs[0]
 static long idx_of(dispatch_queue_attr_t a){ return a ? (long)(((char*)a - base)/16) : -1; }
-static dispatch_queue_attr_t attr_of(long i){ return (dispatch_queue_attr_t)(base + 16*i); }
+static dispatch_queue_attr_t app_conc;    // LFN_NOPIE: DISPATCH_QUEUE_CONCURRENT as this (position-dependent) executable sees it: a copy of the table's first entry in its own .bss
+static dispatch_queue_attr_t attr_of(long i){ if(i==0 && app_conc) return app_conc; return (dispatch_queue_attr_t)(base + 16*i); }
 static const int qos_class_of[7] = {0x00,0x05,0x09,0x11,0x15,0x19,0x21};
 
 static const struct dispatch_data_format_type_s *fmt_of(const char *s){
@@ -103,6 +105,10 @@ static void outer_fn(void *c){ struct probe *p=c; submit(p->inner, p->path, p); 
 #define MAXS 64
 int main(void){
   base = (char*)DISPATCH_QUEUE_CONCURRENT;
+#ifdef LFN_NOPIE
+  { void *hd=dlopen("libdispatch.so",RTLD_NOLOAD|RTLD_NOW); char *t = hd ? (char*)dlsym(hd,"_dispatch_queue_attr_concurrent") : NULL;   // the library's own definition: the table
+    app_conc = DISPATCH_QUEUE_CONCURRENT; if(t) base = t; }
+#endif
   static char line[1<<18];
   while (fgets(line,sizeof line,stdin)){
     char *tok = strtok(line," \n");
@@ -136,6 +142,7 @@ int main(void){
       dispatch_release(d); }
     else if(!strcmp(tok,"AQ")){ long i=atol(strtok(NULL," \n")); int q=atoi(strtok(NULL," \n")); int r=atoi(strtok(NULL," \n"));
       printf("%ld\n", idx_of(dispatch_queue_attr_make_with_qos_class(attr_of(i),(dispatch_qos_class_t)qos_class_of[q],-r))); }
+    else if(!strcmp(tok,"NP")){ printf("%d\n", app_conc && (char*)app_conc != base); }      // 1: DISPATCH_QUEUE_CONCURRENT lies outside the table (copy relocation)
     else if(!strcmp(tok,"AI")){ long i=atol(strtok(NULL," \n")); printf("%ld\n", idx_of(dispatch_queue_attr_make_initially_inactive(attr_of(i)))); }
     else if(!strcmp(tok,"AO")){ long i=atol(strtok(NULL," \n")); int b=atoi(strtok(NULL," \n")); printf("%ld\n", idx_of(dispatch_queue_attr_make_with_overcommit(attr_of(i),b))); }
     else if(!strcmp(tok,"AF")){ long i=atol(strtok(NULL," \n")); int f=atoi(strtok(NULL," \n")); printf("%ld\n", idx_of(dispatch_queue_attr_make_with_autorelease_frequency(attr_of(i),(dispatch_autorelease_frequency_t)f))); }
